@@ -194,6 +194,20 @@ static std::vector<Op> table()
     OP("utf16_buffer.allocate(n,fill)", f.b16->allocate(100, u'k'); E(f.b16v.assign(100, u'k')));
     OP("utf32_buffer.allocate(n,fill)", f.b32->allocate(100, U'k'); E(f.b32v.assign(100, U'k')));
     OP("wchar_buffer.allocate(n)", f.bw->allocate(100); for (size_t i = 0; i < 100; ++i) (*f.bw)[i] = 0; E(f.bwv.assign(100, L'\0')));
+    OP("char_buffer.allocate(n,0) zero fill", f.cb->allocate(100, '\0'); E(f.cbv.assign(100, '\0')));
+    OP("utf16_buffer.allocate(n,0) zero fill", f.b16->allocate(64, u'\0'); E(f.b16v.assign(64, u'\0')));
+    OP("utf32_buffer.allocate(n,0) zero fill", f.b32->allocate(64, U'\0'); E(f.b32v.assign(64, U'\0')));
+    OP("wchar_buffer.allocate(n,0) zero fill", f.bw->allocate(64, L'\0'); E(f.bwv.assign(64, L'\0')));
+    OP("char_buffer(count,0) zero fill", ST::char_buffer x(f.sv[1].size() + 20, '\0'); (void)x);
+    // --- operations that are not supposed to allocate at all (noexcept searches, comparisons, caller-buffer decoders): if one
+    // of them starts to, the failing allocation must still not terminate the process or go unnoticed
+    OP("find/contains/starts_with/ends_with (long needles)", volatile long sink = f.s[2]->find(*f.s[1]) + f.s[2]->find_last(*f.s[1]) + f.s[2]->contains(*f.s[1]) + f.s[2]->starts_with(*f.s[2]) + f.s[2]->ends_with(*f.s[2])
+           + f.s[2]->find(f.stds.c_str(), ST::case_insensitive) + f.s[2]->ends_with(f.stds.c_str(), ST::case_insensitive) + f.s[2]->starts_with(*f.s[1], ST::case_insensitive); (void)sink);
+    OP("compare/compare_i/==/hash (long operands)", volatile long sink = f.s[2]->compare(*f.s[1]) + f.s[2]->compare_i(*f.s[2]) + f.s[2]->compare_n(*f.s[1], 20) + (*f.s[2] == *f.s[1]) + (*f.s[2] < *f.s[1])
+           + static_cast<long>(ST::hash()(*f.s[2]) & 0xff) + static_cast<long>(ST::hash_i()(*f.s[2]) & 0xff) + f.cb->compare(*f.cb) + f.b16->compare(*f.b16); (void)sink);
+    OP("hex/base64 decode into a caller buffer", ST::string h = ST::hex_encode(f.sv[1].data(), f.sv[1].size()); ST::string b = ST::base64_encode(f.sv[1].data(), f.sv[1].size()); char out[2048];
+           volatile long sink = static_cast<long>(ST::hex_decode(h, out, sizeof(out))) + static_cast<long>(ST::base64_decode(b, out, sizeof(out))) + static_cast<long>(ST::hex_decode(h, nullptr, 0)) + static_cast<long>(ST::base64_decode(b, nullptr, 0)); (void)sink);
+    OP("to_int/to_double/to_bool (long text)", ST::conversion_result cr; volatile double sink = static_cast<double>(f.s[2]->to_long_long(cr)) + f.s[2]->to_double(cr) + f.s[2]->to_uint() + (f.s[2]->to_bool() ? 1 : 0); (void)sink);
     // --- strings
     OP("string(const char*)", ST::string x(f.stds.c_str()); (void)x);
     OP("string copy-ctor", ST::string x(*f.s[1]); (void)x);
@@ -310,7 +324,7 @@ static void body()
 {
     vrt::require("faults.injected", 500);
     vrt::require("faults.bad_alloc_reached_caller", 500);
-    vrt::require("ops.covered", 104);
+    vrt::require("ops.covered", 113);
     static const std::vector<Op> ops = table();
     const size_t nvar = vrt::tier_count(40, 160);      // random fillings per (operation, storage-mode combination)
     vrt::note(sfmt("fault enumeration: %zu allocating operations x 4 storage-mode combinations (short/long target x short/long argument) x %zu random fillings x every allocation index k = 1..N of the call", ops.size(), nvar));
